@@ -390,5 +390,475 @@ theorem vel_bound_abs (chk : Bool) (mp : MotionProfile F) (hwf : WF chk mp)
   · obtain ⟨l, u⟩ := b3 h
     exact (abs_le_of_between _ _ _ l u).trans (max_le_max (le_max_right _ _) (le_refl _))
 
+/-! ### the constructor's signed quantities -/
+theorem sgn_cases (s e : State F) :
+    (e.position < s.position ∧ sgn s e = -1) ∨ (¬ e.position < s.position ∧ sgn s e = 1) := by
+  unfold sgn
+  by_cases h : e.position < s.position <;> simp [h]
+theorem sgn_ne_zero (s e : State F) : sgn s e ≠ 0 := by
+  rcases sgn_cases s e with h | h <;> rw [h.2] <;> norm_num
+theorem vMax_eq (s e : State F) (mv : F) : vMax s e mv = |mv| * sgn s e := by
+  simp only [vMax, ExactScalar.absF_eq]
+theorem aMax_eq (s e : State F) (ma : F) : aMax s e ma = |ma| * sgn s e := by
+  simp only [aMax, ExactScalar.absF_eq]
+theorem aMax_ne_zero (s e : State F) (ma : F) (h : ma ≠ 0) : aMax s e ma ≠ 0 := by
+  rw [aMax_eq]; exact mul_ne_zero (abs_ne_zero.2 h) (sgn_ne_zero s e)
+theorem vMax_ne_zero (s e : State F) (mv : F) (h : mv ≠ 0) : vMax s e mv ≠ 0 := by
+  rw [vMax_eq]; exact mul_ne_zero (abs_ne_zero.2 h) (sgn_ne_zero s e)
+
+/-! ### arrival at the end state -/
+/-- **arrival, velocity.** Full claim: `v(t3⁻) = v_end`. Proved under the hypothesis that the stored integer
+nanosecond times reproduce the real-valued durations exactly: `sec t1 = T1` and `sec t3 − sec t2 = D3`
+(`T1 = (v_max − v₀)/a`, `D3 = (v_end − v_max)/(−a)` with the signed `v_max`, `a` that `new` computes), and `max_acc ≠ 0`.
+MISSING: `t1..t3` are truncated to whole ns by `as i64`, so in general the equality holds only up to
+`|a|·1 ns` (plus binary32 rounding); that error bound is tested, not proved. -/
+theorem arrival_vel_partial (chk : Bool) (s e : State F) (mv ma : Quantity F) (mp : MotionProfile F)
+    (h : MotionProfile.new chk s e mv ma = .ok mp) (hma : ma.value ≠ 0)
+    (hex1 : (sec mp.t1 : F) = T1 s e mv.value ma.value)
+    (hex3 : (sec mp.t3 : F) - sec mp.t2 = D3 s e mv.value ma.value) :
+    velF mp (mp.t1 + mp.t2 - mp.t3) = e.velocity := by
+  obtain ⟨-, -, -, hmp⟩ := newSpec_ok (new_ok_spec h)
+  have hA : mp.maxAcc.value = aMax s e ma.value := by rw [hmp]; rfl
+  have hv0 : mp.startVel.value = s.velocity := by rw [hmp]; rfl
+  have hne := aMax_ne_zero s e ma.value hma
+  rw [velF_closed, sec_sub, sec_add, hA, hv0]
+  have : (sec mp.t1 : F) + sec mp.t2 - sec mp.t3 = T1 s e mv.value ma.value - D3 s e mv.value ma.value := by
+    rw [← hex1, ← hex3]; ring
+  rw [this]
+  unfold T1 D3
+  generalize aMax s e ma.value = A at hne
+  generalize vMax s e mv.value = V
+  field_simp
+  ring
+
+/-- **arrival, position.** Full claim: `p(t3⁻) = p_end`. Proved under: `sec t1 = T1`, `sec t2 = T2`, `sec t3 = T3`
+(stored times are the exact real instants), `t1` even (so the integer halving is exact), `max_vel ≠ 0`, `max_acc ≠ 0`.
+MISSING: truncation to ns / the odd-`t1` half-nanosecond / binary32 rounding (tested, not proved). -/
+theorem arrival_pos_partial (chk : Bool) (s e : State F) (mv ma : Quantity F) (mp : MotionProfile F)
+    (h : MotionProfile.new chk s e mv ma = .ok mp) (hmv : mv.value ≠ 0) (hma : ma.value ≠ 0)
+    (heven : 2 ∣ mp.t1)
+    (hex1 : (sec mp.t1 : F) = T1 s e mv.value ma.value)
+    (hex2 : (sec mp.t2 : F) = T2 s e mv.value ma.value)
+    (hex3 : (sec mp.t3 : F) = T3 s e mv.value ma.value) :
+    pos3F mp mp.t3 = e.position := by
+  obtain ⟨-, -, -, hmp⟩ := newSpec_ok (new_ok_spec h)
+  have hA : mp.maxAcc.value = aMax s e ma.value := by rw [hmp]; rfl
+  have hv0 : mp.startVel.value = s.velocity := by rw [hmp]; rfl
+  have hp0 : mp.startPos.value = s.position := by rw [hmp]; rfl
+  have hne := aMax_ne_zero s e ma.value hma
+  have hnv := vMax_ne_zero s e mv.value hmv
+  rw [pos3F_closed, sec_half_even _ heven, hA, hv0, hp0, hex1, hex2, hex3]
+  unfold T3 T2 D2 T1 D3
+  simp only [c2_eq]
+  generalize aMax s e ma.value = A at hne
+  generalize vMax s e mv.value = V at hnv
+  field_simp
+  ring
+
+/-- **speed limit.** Full claim: during the move `|v(t)| ≤ max(|v₀|, |max_vel|, |v_end|)`. Proved under ordered times and
+the same exactness hypotheses as `arrival_vel_partial` (then the corner values of `vel_bound` are exactly `v₀`,
+`±|max_vel|`, `v_end`). MISSING: truncation of the times to ns and binary32 rounding. -/
+theorem vel_bound_limits_partial (chk : Bool) (s e : State F) (mv ma : Quantity F) (mp : MotionProfile F)
+    (h : MotionProfile.new chk s e mv ma = .ok mp) (hma : ma.value ≠ 0)
+    (hord : 0 ≤ mp.t1 ∧ mp.t1 ≤ mp.t2 ∧ mp.t2 ≤ mp.t3)
+    (hex1 : (sec mp.t1 : F) = T1 s e mv.value ma.value)
+    (hex3 : (sec mp.t3 : F) - sec mp.t2 = D3 s e mv.value ma.value)
+    (t : Int) (ht0 : 0 ≤ t) (ht3 : t < mp.t3) :
+    ∃ v : F, getVelocity chk mp t = .ok (some ⟨v, MILLIMETER_PER_SECOND chk⟩) ∧
+      |v| ≤ max (max |s.velocity| |mv.value|) |e.velocity| := by
+  obtain ⟨v, hv, hb⟩ := vel_bound_abs chk mp (MpL.new_wf h) hord t ht0 ht3
+  refine ⟨v, hv, ?_⟩
+  obtain ⟨-, -, -, hmp⟩ := newSpec_ok (new_ok_spec h)
+  have hA : mp.maxAcc.value = aMax s e ma.value := by rw [hmp]; rfl
+  have hv0 : mp.startVel.value = s.velocity := by rw [hmp]; rfl
+  have hne := aMax_ne_zero s e ma.value hma
+  have c3 : mp.startVel.value + mp.maxAcc.value * sec (mp.t1 + mp.t2 - mp.t3) = e.velocity := by
+    rw [← velF_closed]; exact arrival_vel_partial chk s e mv ma mp h hma hex1 hex3
+  have c2 : mp.startVel.value + mp.maxAcc.value * sec mp.t1 = vMax s e mv.value := by
+    rw [hA, hv0, hex1]; unfold T1; field_simp; ring
+  have habs : |vMax s e mv.value| = |mv.value| := by
+    rw [vMax_eq, abs_mul, abs_abs]
+    rcases sgn_cases s e with hs | hs <;> rw [hs.2] <;> simp
+  rw [c3, c2, habs, hv0] at hb
+  exact hb
+
+section
+variable {F' : Type} [Add F'] [Sub F'] [Mul F'] [Div F'] [Neg F'] [LT F'] [LE F'] [BEq F']
+  [DecidableLT F'] [DecidableLE F'] [FloatLike F']
+/-- (tier S) when the end state is at rest (`acceleration == 0`, `velocity == 0`) the accessors AT and after
+completion return the end position and zero velocity exactly, whatever the rounding of the times -/
+theorem arrival_exact_when_end_at_rest (chk : Bool) (s e : State F') (mv ma : Quantity F') (mp : MotionProfile F')
+    (h : MotionProfile.new chk s e mv ma = .ok mp)
+    (ha : (e.acceleration == c0) = true) (hv : (e.velocity == c0) = true)
+    (t : Int) (hc : getPiece mp t = .complete) :
+    getPosition chk mp t = .ok (some ⟨e.position, MILLIMETER chk⟩) ∧
+    getVelocity chk mp t = .ok (some ⟨c0, MILLIMETER_PER_SECOND chk⟩) := by
+  have hec := (C06.new_end_command chk s e mv ma mp h).1
+  have : Command.ofState e = .position e.position := by simp [Command.ofState, ha, hv]
+  rw [this] at hec
+  rw [C06.pos_complete chk mp t hc, C06.vel_complete chk mp t hc, hec]
+  exact ⟨rfl, rfl⟩
+end
+
+/-! ### acceptance -/
+/-- **a move with room is accepted.** With `max_acc ≠ 0`, start and end speeds within `|max_vel|`, and
+`|Δp| ≥ |d_acc| + |d_dec|` (the acceleration and deceleration distances exactly as `new` computes them, signs
+included), none of the three asserts fires: the value-level constructor returns, and so does `new` itself without
+dimension checking (any units) and with dimension checking for limits in mm/s and mm/s². -/
+theorem accepted_when_room (s e : State F) (mv ma : F) (hma : ma ≠ 0)
+    (hv0 : |s.velocity| ≤ |mv|) (hve : |e.velocity| ≤ |mv|)
+    (hroom : |(s.velocity + vMax s e mv) / 2 * T1 s e mv ma| + |(vMax s e mv + e.velocity) / 2 * D3 s e mv ma|
+      ≤ |e.position - s.position|) :
+    ((0 : F) ≤ T1 s e mv ma ∧ (0 : F) ≤ D3 s e mv ma ∧ (0 : F) ≤ D2 s e mv ma) ∧
+    (∀ chk, newSpec chk s e mv ma = .ok (newResult chk s e mv ma)) ∧
+    (∀ u u' : DUnit, MotionProfile.new false s e ⟨mv, u⟩ ⟨ma, u'⟩ = .ok (newResult false s e mv ma)) ∧
+    MotionProfile.new true s e ⟨mv, ⟨1, -1⟩⟩ ⟨ma, ⟨1, -2⟩⟩ = .ok (newResult true s e mv ma) := by
+  have hpos : 0 < |ma| := abs_pos.2 hma
+  obtain ⟨l0, u0⟩ := abs_le.1 hv0
+  obtain ⟨le, ue⟩ := abs_le.1 hve
+  have k1 : (0 : F) ≤ T1 s e mv ma := by
+    unfold T1
+    rw [vMax_eq, aMax_eq]
+    rcases sgn_cases s e with ⟨_, hs⟩ | ⟨_, hs⟩ <;> rw [hs]
+    · exact div_nonneg_of_nonpos (by linarith) (by linarith)
+    · exact div_nonneg (by linarith) (by linarith)
+  have k3 : (0 : F) ≤ D3 s e mv ma := by
+    unfold D3
+    rw [vMax_eq, aMax_eq]
+    rcases sgn_cases s e with ⟨_, hs⟩ | ⟨_, hs⟩ <;> rw [hs]
+    · exact div_nonneg (by linarith) (by linarith)
+    · exact div_nonneg_of_nonpos (by linarith) (by linarith)
+  have k2 : (0 : F) ≤ D2 s e mv ma := by
+    unfold D2
+    simp only [c2_eq]
+    set d1 := (s.velocity + vMax s e mv) / 2 * T1 s e mv ma with hd1
+    set d3 := (vMax s e mv + e.velocity) / 2 * D3 s e mv ma with hd3
+    have a1 := abs_le.1 (le_refl |d1|)
+    have a3 := abs_le.1 (le_refl |d3|)
+    have hmvn : 0 ≤ |mv| := abs_nonneg mv
+    rw [vMax_eq]
+    rcases sgn_cases s e with ⟨hlt, hs⟩ | ⟨hlt, hs⟩ <;> rw [hs]
+    · have : |e.position - s.position| = -(e.position - s.position) := abs_of_neg (by linarith)
+      rw [this] at hroom
+      exact div_nonneg_of_nonpos (by linarith) (by linarith)
+    · have : |e.position - s.position| = e.position - s.position := abs_of_nonneg (by linarith [not_lt.1 hlt])
+      rw [this] at hroom
+      exact div_nonneg (by linarith) (by linarith)
+  have hspec : ∀ chk, newSpec chk s e mv ma = .ok (newResult chk s e mv ma) := by
+    intro chk
+    simp only [newSpec, c0_eq, k1, k3, k2, not_true_eq_false, if_false]
+  exact ⟨⟨k1, k3, k2⟩, hspec, fun u u' => by rw [new_false]; exact hspec false,
+    by rw [new_true_good]; exact hspec true⟩
+
+/-! ### mirror symmetry -/
+/-- the mirrored profile: positions, velocities and accelerations negated, times kept -/
+def negProfile (mp : MotionProfile F) : MotionProfile F :=
+  ⟨Quantity.neg mp.startPos, Quantity.neg mp.startVel, mp.t1, mp.t2, mp.t3, Quantity.neg mp.maxAcc,
+    Command.neg mp.endCommand⟩
+
+theorem sgn_neg (s e : State F) (hne : s.position ≠ e.position) :
+    sgn (State.neg s) (State.neg e) = - sgn s e := by
+  simp only [sgn, State.neg, cm1_eq, c1_eq, neg_lt_neg_iff]
+  rcases lt_trichotomy e.position s.position with h | h | h
+  · simp [h, not_lt.2 (le_of_lt h)]
+  · exact absurd h.symm hne
+  · simp [h, not_lt.2 (le_of_lt h)]
+theorem vMax_neg (s e : State F) (mv : F) (hne : s.position ≠ e.position) :
+    vMax (State.neg s) (State.neg e) mv = - vMax s e mv := by
+  simp only [vMax, sgn_neg s e hne, mul_neg]
+theorem aMax_neg (s e : State F) (ma : F) (hne : s.position ≠ e.position) :
+    aMax (State.neg s) (State.neg e) ma = - aMax s e ma := by
+  simp only [aMax, sgn_neg s e hne, mul_neg]
+theorem T1_neg (s e : State F) (mv ma : F) (hne : s.position ≠ e.position) :
+    T1 (State.neg s) (State.neg e) mv ma = T1 s e mv ma := by
+  simp only [T1, vMax_neg s e mv hne, aMax_neg s e ma hne]
+  rw [show (-vMax s e mv - (State.neg s).velocity) = -(vMax s e mv - s.velocity) by simp only [State.neg]; ring,
+    neg_div_neg_eq]
+theorem D3_neg (s e : State F) (mv ma : F) (hne : s.position ≠ e.position) :
+    D3 (State.neg s) (State.neg e) mv ma = D3 s e mv ma := by
+  simp only [D3, vMax_neg s e mv hne, aMax_neg s e ma hne]
+  rw [show ((State.neg e).velocity - -vMax s e mv) = -(e.velocity - vMax s e mv) by simp only [State.neg]; ring,
+    neg_div_neg_eq]
+theorem D2_neg (s e : State F) (mv ma : F) (hne : s.position ≠ e.position) :
+    D2 (State.neg s) (State.neg e) mv ma = D2 s e mv ma := by
+  simp only [D2, T1_neg s e mv ma hne, D3_neg s e mv ma hne, vMax_neg s e mv hne]
+  rw [show ((State.neg e).position - (State.neg s).position -
+        (((State.neg s).velocity + -vMax s e mv) / c2 * T1 s e mv ma +
+          (-vMax s e mv + (State.neg e).velocity) / c2 * D3 s e mv ma)) =
+      -((e.position - s.position) -
+        ((s.velocity + vMax s e mv) / c2 * T1 s e mv ma + (vMax s e mv + e.velocity) / c2 * D3 s e mv ma)) by
+    simp only [State.neg]; ring, neg_div_neg_eq]
+theorem ofState_neg (e : State F) : Command.ofState (State.neg e) = Command.neg (Command.ofState e) := by
+  simp only [Command.ofState, State.neg, c0_eq]
+  by_cases ha : e.acceleration = 0 <;> by_cases hv : e.velocity = 0 <;> simp [ha, hv, Command.neg]
+
+theorem newResult_neg (chk : Bool) (s e : State F) (mv ma : F) (hne : s.position ≠ e.position) :
+    newResult chk (State.neg s) (State.neg e) mv ma = negProfile (newResult chk s e mv ma) := by
+  simp only [newResult, negProfile, T2, T3, T1_neg s e mv ma hne, D3_neg s e mv ma hne, D2_neg s e mv ma hne,
+    aMax_neg s e ma hne, ofState_neg]
+  rfl
+
+theorem newSpec_neg (chk : Bool) (s e : State F) (mv ma : F) (hne : s.position ≠ e.position) :
+    newSpec chk (State.neg s) (State.neg e) mv ma = (newSpec chk s e mv ma).map negProfile := by
+  simp only [newSpec, T1_neg s e mv ma hne, D3_neg s e mv ma hne, D2_neg s e mv ma hne,
+    newResult_neg chk s e mv ma hne]
+  repeat' split
+  all_goals rfl
+
+/-- **mirror symmetry of the constructor**, for `start.position ≠ end.position`: negating both states yields the
+profile with the same `t1, t2, t3` and negated `start_pos`, `start_vel`, `max_acc`, end command; without dimension
+checking even the panics coincide.
+MISSING for the full claim ("negating all positions and velocities negates every output"): the case
+`start.position = end.position`, where the claim is FALSE for the code (`mirror_fails_at_equal_positions`): `sign` is
+`+1` for a move and for its mirror. -/
+theorem mirror_partial (chk : Bool) (s e : State F) (mv ma : Quantity F) (mp : MotionProfile F)
+    (hne : s.position ≠ e.position) (h : MotionProfile.new chk s e mv ma = .ok mp) :
+    MotionProfile.new chk (State.neg s) (State.neg e) mv ma = .ok (negProfile mp) := by
+  have hs := new_ok_spec h
+  have hm : newSpec chk (State.neg s) (State.neg e) mv.value ma.value = .ok (negProfile mp) := by
+    rw [newSpec_neg chk s e _ _ hne, hs]; rfl
+  cases chk with
+  | false => rw [new_false]; exact hm
+  | true =>
+    obtain ⟨h1, h2⟩ := new_true_units h
+    obtain ⟨mvv, mvu⟩ := mv
+    obtain ⟨mav, mau⟩ := ma
+    simp only at h1 h2
+    subst h1 h2
+    rw [new_true_good]; exact hm
+
+theorem mirror_false_partial (s e : State F) (mv ma : Quantity F) (hne : s.position ≠ e.position) :
+    MotionProfile.new false (State.neg s) (State.neg e) mv ma =
+      (MotionProfile.new false s e mv ma).map negProfile := by
+  rw [new_false, new_false, newSpec_neg false s e _ _ hne]
+
+/-! #### every accessor of the mirrored profile is the negation -/
+theorem negProfile_wf (chk : Bool) (mp : MotionProfile F) (hwf : WF chk mp) : WF chk (negProfile mp) := hwf
+theorem negProfile_piece (mp : MotionProfile F) (t : Int) : getPiece (negProfile mp) t = getPiece mp t := rfl
+theorem negProfile_mode (mp : MotionProfile F) (t : Int) : getMode (negProfile mp) t = getMode mp t := by
+  have : (Command.neg mp.endCommand).kind = mp.endCommand.kind := by cases mp.endCommand <;> rfl
+  simp only [getMode, negProfile, this]
+theorem velF_neg (mp : MotionProfile F) (τ : Int) : velF (negProfile mp) τ = - velF mp τ := by
+  simp only [velF, negProfile, Quantity.neg]; ring
+theorem pos1F_neg (mp : MotionProfile F) (t : Int) : pos1F (negProfile mp) t = - pos1F mp t := by
+  simp only [pos1F, negProfile, Quantity.neg]; ring
+theorem pos2F_neg (mp : MotionProfile F) (t : Int) : pos2F (negProfile mp) t = - pos2F mp t := by
+  simp only [pos2F, negProfile, Quantity.neg]; ring
+theorem pos3F_neg (mp : MotionProfile F) (t : Int) : pos3F (negProfile mp) t = - pos3F mp t := by
+  simp only [pos3F, negProfile, Quantity.neg]; ring
+
+theorem mirror_acceleration (chk : Bool) (mp : MotionProfile F) (t : Int) :
+    getAcceleration chk (negProfile mp) t = (getAcceleration chk mp t).map Quantity.neg := by
+  have hz : (⟨c0, MILLIMETER_PER_SECOND_SQUARED chk⟩ : Quantity F) =
+      Quantity.neg ⟨c0, MILLIMETER_PER_SECOND_SQUARED chk⟩ := by simp [Quantity.neg]
+  have hc : (Command.neg mp.endCommand).getAcceleration chk = Quantity.neg (mp.endCommand.getAcceleration chk) := by
+    cases mp.endCommand <;> simp [Command.neg, Command.getAcceleration, Quantity.neg]
+  unfold getAcceleration
+  by_cases h0 : t < 0
+  · simp [h0]
+  by_cases h1 : t < mp.t1
+  · simp [h0, h1, negProfile]
+  by_cases h2 : t < mp.t2
+  · simp [h0, h1, h2, negProfile, Quantity.neg]
+  by_cases h3 : t < mp.t3
+  · simp [h0, h1, h2, h3, negProfile]
+  · simp [h0, h1, h2, h3, negProfile, hc]
+
+theorem mirror_velocity (chk : Bool) (mp : MotionProfile F) (hwf : WF chk mp) (t : Int) :
+    getVelocity chk (negProfile mp) t = (getVelocity chk mp t).map (Option.map Quantity.neg) := by
+  rw [getVelocity_wf (negProfile_wf chk mp hwf), getVelocity_wf hwf]
+  simp only [velOpt, negProfile_piece, velF_neg]
+  have hc : (Command.neg mp.endCommand).getVelocity chk = (mp.endCommand.getVelocity chk).map Quantity.neg := by
+    cases mp.endCommand <;> simp [Command.neg, Command.getVelocity, Quantity.neg]
+  cases getPiece mp t <;> simp [Except.map, Quantity.neg, negProfile, hc]
+
+theorem mirror_position (chk : Bool) (mp : MotionProfile F) (hwf : WF chk mp) (t : Int) :
+    getPosition chk (negProfile mp) t = (getPosition chk mp t).map (Option.map Quantity.neg) := by
+  rw [getPosition_wf (negProfile_wf chk mp hwf), getPosition_wf hwf]
+  simp only [posOpt, negProfile_piece, pos1F_neg, pos2F_neg, pos3F_neg]
+  have hc : (Command.neg mp.endCommand).getPosition chk = (mp.endCommand.getPosition chk).map Quantity.neg := by
+    cases mp.endCommand <;> simp [Command.neg, Command.getPosition, Quantity.neg]
+  cases getPiece mp t <;> simp [Except.map, Quantity.neg, negProfile, hc]
+
+theorem mirror_history (chk : Bool) (mp : MotionProfile F) (hwf : WF chk mp) (t : Int) :
+    historyGet chk (negProfile mp) t =
+      (historyGet chk mp t).map (Option.map (fun d => ⟨d.time, Command.neg d.value⟩)) := by
+  rw [C06.history_wf chk _ (negProfile_wf chk mp hwf), C06.history_wf chk mp hwf]
+  simp only [negProfile_piece, velF_neg]
+  cases getPiece mp t <;> simp [Except.map, Command.neg, negProfile, Quantity.neg]
+
 end R
+
+/-! ## non-vacuity and the counterexample at `start.position = end.position` -/
+section Examples
+open Rrtk.Thm.C06 in
+/-- the test-suite profile 0 → 3 mm over `ℚ` (from `C06.new_example`): all hypotheses used above are satisfiable -/
+def mpQ : MotionProfile ℚ :=
+  ⟨⟨0, MILLIMETER true⟩, ⟨0, MILLIMETER_PER_SECOND true⟩, 10000000000, 30000000000, 40000000000,
+    ⟨1/100, MILLIMETER_PER_SECOND_SQUARED true⟩, .position 3⟩
+
+example : MotionProfile.new true (⟨0, 0, 0⟩ : State ℚ) ⟨3, 0, 0⟩ ⟨1/10, ⟨1, -1⟩⟩ ⟨1/100, ⟨1, -2⟩⟩ = .ok mpQ :=
+  C06.new_example
+example : WF true mpQ := ⟨rfl, rfl, rfl⟩
+example : 0 ≤ mpQ.t1 ∧ mpQ.t1 ≤ mpQ.t2 ∧ mpQ.t2 ≤ mpQ.t3 ∧ 0 < mpQ.t3 ∧ (2 : Int) ∣ mpQ.t1 := by
+  simp only [mpQ]; refine ⟨by norm_num, by norm_num, by norm_num, by norm_num, by norm_num⟩
+example : getPiece mpQ 5 = .initialAcceleration ∧ getPiece mpQ 7 = .initialAcceleration ∧
+    getPiece mpQ 10000000000 = .constantVelocity ∧ getPiece mpQ 20000000000 = .constantVelocity ∧
+    getPiece mpQ 30000000000 = .endAcceleration ∧ getPiece mpQ 35000000000 = .endAcceleration ∧
+    getPiece mpQ 40000000000 = .complete := by decide
+/-- the exactness hypotheses of the arrival theorems hold for this profile: 10 s, 30 s, 40 s are whole nanoseconds -/
+example : (sec mpQ.t1 : ℚ) = 10 ∧ (sec mpQ.t2 : ℚ) = 30 ∧ (sec mpQ.t3 : ℚ) = 40 := by
+  simp only [sec, mpQ]; norm_num
+/-- `accepted_when_room`'s hypotheses at the same inputs: distances 0.5 + 0.5 ≤ 3 -/
+example : (1/100 : ℚ) ≠ 0 ∧ |(0 : ℚ)| ≤ |(1/10 : ℚ)| := by norm_num
+
+/-- evaluating the value-level constructor from its intermediate values (tier S) -/
+theorem newSpec_of_values {F : Type} [Add F] [Sub F] [Mul F] [Div F] [Neg F] [LT F] [LE F] [BEq F]
+    [DecidableLT F] [DecidableLE F] [FloatLike F]
+    (chk : Bool) (s e : State F) (mv ma : F) {v a t1 d3 d2 : F}
+    (hv : vMax s e mv = v) (ha : aMax s e ma = a)
+    (h1 : (v - s.velocity) / a = t1) (h3 : (e.velocity - v) / (-a) = d3)
+    (h2 : ((e.position - s.position) - ((s.velocity + v) / c2 * t1 + (v + e.velocity) / c2 * d3)) / v = d2)
+    (p1 : (c0 : F) ≤ t1) (p3 : (c0 : F) ≤ d3) (p2 : (c0 : F) ≤ d2) :
+    newSpec chk s e mv ma = .ok ⟨⟨s.position, MILLIMETER chk⟩, ⟨s.velocity, MILLIMETER_PER_SECOND chk⟩,
+      FloatLike.toInt (t1 * c1e9), FloatLike.toInt ((t1 + d2) * c1e9), FloatLike.toInt ((t1 + d2 + d3) * c1e9),
+      ⟨a, MILLIMETER_PER_SECOND_SQUARED chk⟩, Command.ofState e⟩ := by
+  have e1 : T1 s e mv ma = t1 := by simp only [T1, hv, ha, h1]
+  have e3 : D3 s e mv ma = d3 := by simp only [D3, hv, ha, h3]
+  have e2 : D2 s e mv ma = d2 := by simp only [D2, hv, e1, e3, h2]
+  simp only [newSpec, newResult, T2, T3, e1, e2, e3, ha, p1, p2, p3, not_true_eq_false, if_false]
+
+/-- the zero-displacement "move" of finding F5 and its mirror image -/
+def sF5 : State ℚ := ⟨0, 1/10, 0⟩
+def sF5m : State ℚ := ⟨0, -1/10, 0⟩
+def mpF5 : MotionProfile ℚ :=
+  ⟨⟨0, MILLIMETER false⟩, ⟨1/10, MILLIMETER_PER_SECOND false⟩, 0, 0, 0,
+    ⟨1/100, MILLIMETER_PER_SECOND_SQUARED false⟩, .velocity (1/10)⟩
+def mpF5m : MotionProfile ℚ :=
+  ⟨⟨0, MILLIMETER false⟩, ⟨-1/10, MILLIMETER_PER_SECOND false⟩, 20000000000, 20000000000, 40000000000,
+    ⟨1/100, MILLIMETER_PER_SECOND_SQUARED false⟩, .velocity (-1/10)⟩
+
+theorem sF5_neg : State.neg sF5 = sF5m := by simp [State.neg, sF5, sF5m]; norm_num
+
+theorem new_F5 (u u' : DUnit) : MotionProfile.new false sF5 sF5 ⟨1/10, u⟩ ⟨1/100, u'⟩ = .ok mpF5 := by
+  rw [new_false]
+  have hs : sgn sF5 sF5 = 1 := by simp [sgn, sF5, c1, FloatLike.ofInt]
+  have hv : vMax sF5 sF5 (1/10) = 1/10 := by simp only [vMax, hs, FloatLike.absF]; norm_num
+  have ha : aMax sF5 sF5 (1/100) = 1/100 := by simp only [aMax, hs, FloatLike.absF]; norm_num
+  have hc : Command.ofState sF5 = .velocity (1/10) := by
+    simp [Command.ofState, sF5, c0, FloatLike.ofInt]
+  rw [newSpec_of_values false sF5 sF5 (1/10) (1/100) hv ha (t1 := 0) (d3 := 0) (d2 := 0)
+    (by simp [sF5]) (by simp [sF5]) (by simp [sF5])
+    (by simp [c0, FloatLike.ofInt]) (by simp [c0, FloatLike.ofInt]) (by simp [c0, FloatLike.ofInt]), hc]
+  simp [mpF5, sF5, FloatLike.toInt]
+
+theorem new_F5m (u u' : DUnit) : MotionProfile.new false sF5m sF5m ⟨1/10, u⟩ ⟨1/100, u'⟩ = .ok mpF5m := by
+  rw [new_false]
+  have hs : sgn sF5m sF5m = 1 := by simp [sgn, sF5m, c1, FloatLike.ofInt]
+  have hv : vMax sF5m sF5m (1/10) = 1/10 := by simp only [vMax, hs, FloatLike.absF]; norm_num
+  have ha : aMax sF5m sF5m (1/100) = 1/100 := by simp only [aMax, hs, FloatLike.absF]; norm_num
+  have hc : Command.ofState sF5m = .velocity (-1/10) := by
+    simp [Command.ofState, sF5m, c0, FloatLike.ofInt]
+  rw [newSpec_of_values false sF5m sF5m (1/10) (1/100) hv ha (t1 := 20) (d3 := 20) (d2 := 0)
+    (by simp only [sF5m]; norm_num) (by simp only [sF5m]; norm_num)
+    (by simp only [sF5m, c2, FloatLike.ofInt]; norm_num)
+    (by simp [c0, FloatLike.ofInt]) (by simp [c0, FloatLike.ofInt]) (by simp [c0, FloatLike.ofInt]), hc]
+  have i1 : FloatLike.toInt ((20 : ℚ) * c1e9) = 20000000000 := by
+    simp only [c1e9, FloatLike.ofInt, FloatLike.toInt]; norm_num
+  have i2 : FloatLike.toInt (((20 : ℚ) + 0) * c1e9) = 20000000000 := by
+    simp only [c1e9, FloatLike.ofInt, FloatLike.toInt]; norm_num
+  have i3 : FloatLike.toInt (((20 : ℚ) + 0 + 20) * c1e9) = 40000000000 := by
+    simp only [c1e9, FloatLike.ofInt, FloatLike.toInt]; norm_num
+  rw [i1, i2, i3]
+  rfl
+
+/-- **the mirror clause fails at `start.position = end.position`** (finding F5). Start `(0 mm, +0.1 mm/s)` → end
+`(0 mm, +0.1 mm/s)` with limits `0.1 mm/s`, `0.01 mm/s²` is accepted with `t1 = t2 = t3 = 0`; the mirrored input
+`(0, −0.1) → (0, −0.1)` is accepted with `t1 = t2 = 20 s`, `t3 = 40 s`. So the mirrored profile is not the negation:
+at `t = 5 s` the velocity is `+0.1` for the move and `−0.05` (not `−0.1`) for its mirror. -/
+theorem mirror_fails_at_equal_positions :
+    sF5.position = sF5.position ∧
+    MotionProfile.new false sF5 sF5 ⟨1/10, ⟨0, 0⟩⟩ ⟨1/100, ⟨0, 0⟩⟩ = .ok mpF5 ∧
+    MotionProfile.new false (State.neg sF5) (State.neg sF5) ⟨1/10, ⟨0, 0⟩⟩ ⟨1/100, ⟨0, 0⟩⟩ = .ok mpF5m ∧
+    (mpF5.t1, mpF5.t2, mpF5.t3) = (0, 0, 0) ∧
+    (mpF5m.t1, mpF5m.t2, mpF5m.t3) = (20000000000, 20000000000, 40000000000) ∧
+    mpF5m.t3 ≠ (negProfile mpF5).t3 ∧
+    getVelocity false mpF5 5000000000 = .ok (some ⟨1/10, MILLIMETER_PER_SECOND false⟩) ∧
+    getVelocity false mpF5m 5000000000 = .ok (some ⟨-1/20, MILLIMETER_PER_SECOND false⟩) := by
+  refine ⟨rfl, new_F5 _ _, ?_, rfl, rfl, by decide, ?_, ?_⟩
+  · rw [sF5_neg]; exact new_F5m _ _
+  · rfl
+  · rw [((vel_closed_form false mpF5m ⟨rfl, rfl, rfl⟩ 5000000000).1 (by decide))]
+    simp only [mpF5m, sec]; norm_num
+
+/-- non-vacuity of `mirror_partial`: the 0 → 3 mm move has distinct end points and is accepted -/
+example : (⟨0, 0, 0⟩ : State ℚ).position ≠ (⟨3, 0, 0⟩ : State ℚ).position := by norm_num
+
+/-- the constructor's intermediate values for the 0 → 3 mm move -/
+theorem vals_Q :
+    vMax (⟨0, 0, 0⟩ : State ℚ) ⟨3, 0, 0⟩ (1/10) = 1/10 ∧ aMax (⟨0, 0, 0⟩ : State ℚ) ⟨3, 0, 0⟩ (1/100) = 1/100 ∧
+    T1 (⟨0, 0, 0⟩ : State ℚ) ⟨3, 0, 0⟩ (1/10) (1/100) = 10 ∧ D3 (⟨0, 0, 0⟩ : State ℚ) ⟨3, 0, 0⟩ (1/10) (1/100) = 10 ∧
+    D2 (⟨0, 0, 0⟩ : State ℚ) ⟨3, 0, 0⟩ (1/10) (1/100) = 20 := by
+  have hs : sgn (⟨0, 0, 0⟩ : State ℚ) ⟨3, 0, 0⟩ = 1 := by simp [sgn, c1, FloatLike.ofInt]
+  have hv : vMax (⟨0, 0, 0⟩ : State ℚ) ⟨3, 0, 0⟩ (1/10) = 1/10 := by
+    simp only [vMax, hs, FloatLike.absF]; norm_num
+  have ha : aMax (⟨0, 0, 0⟩ : State ℚ) ⟨3, 0, 0⟩ (1/100) = 1/100 := by
+    simp only [aMax, hs, FloatLike.absF]; norm_num
+  have h1 : T1 (⟨0, 0, 0⟩ : State ℚ) ⟨3, 0, 0⟩ (1/10) (1/100) = 10 := by
+    simp only [T1, hv, ha]; norm_num
+  have h3 : D3 (⟨0, 0, 0⟩ : State ℚ) ⟨3, 0, 0⟩ (1/10) (1/100) = 10 := by
+    simp only [D3, hv, ha]; norm_num
+  have h2 : D2 (⟨0, 0, 0⟩ : State ℚ) ⟨3, 0, 0⟩ (1/10) (1/100) = 20 := by
+    simp only [D2, hv, h1, h3, c2, FloatLike.ofInt]; norm_num
+  exact ⟨hv, ha, h1, h3, h2⟩
+
+/-- the hypotheses of `accepted_when_room` at the 0 → 3 mm move: `0.5 + 0.5 ≤ 3` -/
+example :
+    (1/100 : ℚ) ≠ 0 ∧ |(⟨0, 0, 0⟩ : State ℚ).velocity| ≤ |(1/10 : ℚ)| ∧ |(⟨3, 0, 0⟩ : State ℚ).velocity| ≤ |(1/10 : ℚ)| ∧
+    |((⟨0, 0, 0⟩ : State ℚ).velocity + vMax (⟨0, 0, 0⟩ : State ℚ) ⟨3, 0, 0⟩ (1/10)) / 2 *
+        T1 (⟨0, 0, 0⟩ : State ℚ) ⟨3, 0, 0⟩ (1/10) (1/100)| +
+      |(vMax (⟨0, 0, 0⟩ : State ℚ) ⟨3, 0, 0⟩ (1/10) + (⟨3, 0, 0⟩ : State ℚ).velocity) / 2 *
+        D3 (⟨0, 0, 0⟩ : State ℚ) ⟨3, 0, 0⟩ (1/10) (1/100)|
+      ≤ |(⟨3, 0, 0⟩ : State ℚ).position - (⟨0, 0, 0⟩ : State ℚ).position| := by
+  obtain ⟨hv, _, h1, h3, _⟩ := vals_Q
+  rw [hv, h1, h3]
+  norm_num
+
+/-- the exactness hypotheses of `arrival_vel_partial` / `arrival_pos_partial` at the 0 → 3 mm move -/
+example :
+    (sec mpQ.t1 : ℚ) = T1 (⟨0, 0, 0⟩ : State ℚ) ⟨3, 0, 0⟩ (1/10) (1/100) ∧
+    (sec mpQ.t2 : ℚ) = T2 (⟨0, 0, 0⟩ : State ℚ) ⟨3, 0, 0⟩ (1/10) (1/100) ∧
+    (sec mpQ.t3 : ℚ) = T3 (⟨0, 0, 0⟩ : State ℚ) ⟨3, 0, 0⟩ (1/10) (1/100) ∧
+    (sec mpQ.t3 : ℚ) - sec mpQ.t2 = D3 (⟨0, 0, 0⟩ : State ℚ) ⟨3, 0, 0⟩ (1/10) (1/100) := by
+  obtain ⟨_, _, h1, h3, h2⟩ := vals_Q
+  simp only [T2, T3, h1, h2, h3, sec, mpQ]
+  norm_num
+
+/-- … and what the arrival theorems then give for it: the end-acceleration formulas reach `v = 0`, `p = 3` at `t3` -/
+example : velF mpQ (mpQ.t1 + mpQ.t2 - mpQ.t3) = 0 ∧ pos3F mpQ mpQ.t3 = 3 := by
+  obtain ⟨_, _, h1, h3, h2⟩ := vals_Q
+  have e1 : (sec mpQ.t1 : ℚ) = T1 (⟨0, 0, 0⟩ : State ℚ) ⟨3, 0, 0⟩ (1/10) (1/100) := by
+    simp only [h1, sec, mpQ]; norm_num
+  have e2 : (sec mpQ.t2 : ℚ) = T2 (⟨0, 0, 0⟩ : State ℚ) ⟨3, 0, 0⟩ (1/10) (1/100) := by
+    simp only [T2, h1, h2, sec, mpQ]; norm_num
+  have e3 : (sec mpQ.t3 : ℚ) = T3 (⟨0, 0, 0⟩ : State ℚ) ⟨3, 0, 0⟩ (1/10) (1/100) := by
+    simp only [T2, T3, h1, h2, h3, sec, mpQ]; norm_num
+  have e3' : (sec mpQ.t3 : ℚ) - sec mpQ.t2 = D3 (⟨0, 0, 0⟩ : State ℚ) ⟨3, 0, 0⟩ (1/10) (1/100) := by
+    simp only [h3, sec, mpQ]; norm_num
+  exact ⟨arrival_vel_partial true _ _ ⟨1/10, ⟨1, -1⟩⟩ ⟨1/100, ⟨1, -2⟩⟩ mpQ C06.new_example (by norm_num) e1 e3',
+    arrival_pos_partial true _ _ ⟨1/10, ⟨1, -1⟩⟩ ⟨1/100, ⟨1, -2⟩⟩ mpQ C06.new_example (by norm_num) (by norm_num)
+      (by simp only [mpQ]; norm_num) e1 e2 e3⟩
+
+/-- an odd `t1` really breaks position continuity at `t1` (so the evenness hypothesis of `pos_cont_t1_partial`
+cannot be dropped): `t1 = 1 ns`, `a = 1`: the two formulas differ by `1 ns · 0.5 ns` -/
+example :
+    pos2F (⟨⟨0, ⟨0, 0⟩⟩, ⟨0, ⟨0, 0⟩⟩, 1, 2, 3, ⟨1, ⟨0, 0⟩⟩, .position 0⟩ : MotionProfile ℚ) 1 -
+    pos1F (⟨⟨0, ⟨0, 0⟩⟩, ⟨0, ⟨0, 0⟩⟩, 1, 2, 3, ⟨1, ⟨0, 0⟩⟩, .position 0⟩ : MotionProfile ℚ) 1 =
+      1 / 1000000000 * (1 / 2000000000) := by
+  have := pos_jump_t1_odd (⟨⟨0, ⟨0, 0⟩⟩, ⟨0, ⟨0, 0⟩⟩, 1, 2, 3, ⟨1, ⟨0, 0⟩⟩, .position 0⟩ : MotionProfile ℚ)
+    (by norm_num) (by norm_num)
+  rw [this]; simp only [sec]; norm_num
+
+end Examples
+
 end Rrtk.Thm.C07
